@@ -134,7 +134,16 @@ pub fn sigmf_meta(datatype: &str) -> String {
 /// Build a tar archive with the recording plus unrelated members, in a
 /// seeded member order.
 pub fn sigmf_archive(src: &mut Src, meta: &str, data: &[u8]) -> Vec<u8> {
-    let mut members: Vec<(String, Vec<u8>)> = vec![("rec/capture.sigmf-meta".into(), meta.as_bytes().to_vec()), ("rec/capture.sigmf-data".into(), data.to_vec())];
+    // Member paths of ordinary length, or around the 100 bytes that fit the
+    // fixed name field of a tar header (longer ones travel in a GNU long-name
+    // record that only `Entry::path()` applies): 100, 101 and 135 bytes.
+    let dir: String = match src.below(6) {
+        0 => "r".repeat(81),
+        1 => "r".repeat(82),
+        2 => "r".repeat(116),
+        _ => "rec".into(),
+    };
+    let mut members: Vec<(String, Vec<u8>)> = vec![(format!("{dir}/capture.sigmf-meta"), meta.as_bytes().to_vec()), (format!("{dir}/capture.sigmf-data"), data.to_vec())];
     let extra = src.below(3);
     for i in 0..extra {
         let n = src.below(700);
@@ -143,7 +152,7 @@ pub fn sigmf_archive(src: &mut Src, meta: &str, data: &[u8]) -> Vec<u8> {
         let name = match src.below(4) {
             0 => "old/capture.sigmf-data".to_string(),
             1 => "capture.sigmf-data.bak".to_string(),
-            _ => format!("rec/unrelated{i}.txt"),
+            _ => format!("{dir}/unrelated{i}.txt"),
         };
         if members.iter().any(|m| m.0 == name) {
             continue;
